@@ -5,7 +5,7 @@ Shared driver for M-Sys (`qm_c04`, `qm_c03`). Requests (one S-expression line ea
 
   (init <n> <req> (<script> …))      start `Sys.init n prog req`;        → snapshot
        script = (<act> …); act = (send r tag seq) | (spawn fn (r …)) | (select (<src> …)) | fail
-       src = (proc r) | (recv any) | (recv tag k) | (timeout ms)
+       src = (proc r) | (recv any) | (recv tag k) | (recv range lo hi) | (timeout ms)
   (mode current|replace-answers|mark-active-on-empty|wake-only-on-empty-answer)   which `Rules` the step uses (default current) → ok
   (env (<vis> …))                     `Choice.env`   (a `*` entry = everything)            → snapshot
   (worker i vis fuel (ordQ…) (ordE…)) `Choice.worker` (`*` for vis = everything)           → snapshot
@@ -106,6 +106,7 @@ def parseSrc : Sx → Option Src
   | .list [.atom "proc", r] => do some (.proc (← r.asNat))
   | .list [.atom "recv", .atom "any"] => some (.recv .any)
   | .list [.atom "recv", .atom "tag", k] => do some (.recv (.tag (← k.asNat)))
+  | .list [.atom "recv", .atom "range", lo, hi] => do some (.recv (.range (← lo.asNat) (← hi.asNat)))
   | .list [.atom "timeout", ms] => do some (.timeout (← ms.asNat))
   | _ => none
 
